@@ -95,6 +95,23 @@ def run(tier, seed):
             fails.append((case, {k: v[:4] for k, v in by.items()}))
         if model_ok and not case.get("same_bytes"):
             corr.append(case)
+    # history independence: the library is called for all inputs in ONE process (the batch above); the same in another process in
+    # the reverse order, and each input alone after one other input, must give the same bytes for every input
+    from .common import run_lines
+    hist_fail = []
+    okc = [cs for cs in cases if cs["impl"].startswith("ok") and os.path.exists(cs.get("impl_rs", ""))]
+    lines = ["\t".join([cs["in"], cs["start"], os.path.join(cs["dir"], "impl_rev.rs"), "-", "-"]) for cs in reversed(okc)]
+    rcb, rep, _ = run_lines([ZV, "batch"], lines)
+    hist_runs = 0
+    if len(rep) == len(okc):
+        for cs, r in zip(reversed(okc), rep):
+            hist_runs += 1
+            pth = os.path.join(cs["dir"], "impl_rev.rs")
+            if r != cs["impl"] or not os.path.exists(pth) or open(pth, "rb").read() != open(cs["impl_rs"], "rb").read():
+                hist_fail.append((cs, {"first-run (inputs in generation order, one process)": [cs["impl"]], "second-run (reverse order, one process)": [r]}))
+    for case, by in hist_fail:
+        fails.append((case, by))
+    c.cov["history_independence"] = {"inputs": len(okc), "runs_in_reverse_order": hist_runs, "differing": len(hist_fail)}
     dfails, dstats = dir_order_probe(c, [cs for cs in cases if cs["impl"].startswith("ok")], tier, seed)
     for case, by in dfails:
         fails.append((case, by))
